@@ -15,6 +15,18 @@ def over : List Window.Cell → Nat → (Nat → Option Window.Cell) → Nat →
   | [], _, f => f
   | c :: cs, col, f => over cs (col + c.w.toNat) (fun x => if x = col then some c else f x)
 
+/-- One row of the hard-wrap widget (`RichText.Draw` with `Softwrap = false`), as its code draws
+it: graphemes at their columns as in `over`, but the first grapheme that would reach or pass
+`Max.Width` (`col + width ≥ maxW`) is replaced by "…" (width 1, style of the replaced cell unless
+the widget imposes one) and the rest of the line is dropped. -/
+def overHard (maxW : Nat) (est : Option Nat) : List Window.Cell → Nat → (Nat → Option Window.Cell) → Nat → Option Window.Cell
+  | [], _, f => f
+  | c :: cs, col, f =>
+    if col ≥ maxW then f
+    else if col + c.w.toNat ≥ maxW then
+      fun x => if x = col then some { g := Window.gEllipsis, w := 1, st := est.getD c.st } else f x
+    else overHard maxW est cs (col + c.w.toNat) (fun x => if x = col then some c else f x)
+
 /-- Display width of a line (natural numbers). -/
 def width (l : List Window.Cell) : Nat := (l.map (·.w.toNat)).sum
 
